@@ -159,11 +159,12 @@ type ItemModel struct {
 
 // DeclOpts steers the declaration generator.
 type DeclOpts struct {
-	NoJS        bool
-	OwnDataOnly bool // never address non-target context (C10)
-	Collide     bool // emphasise textually identical declarations at different positions, shared templates, xpath_dynamic
-	NoExternal  bool
-	Probe       bool // sprinkle the harness custom function verif_probe (a scheduler yield point) between fields
+	NoJS         bool
+	OwnDataOnly  bool // never address non-target context (C10)
+	Collide      bool // emphasise textually identical declarations at different positions, shared templates, xpath_dynamic
+	NoExternal   bool
+	Pathological bool // allow xpaths that use a boolean where a node-set belongs
+	Probe        bool // sprinkle the harness custom function verif_probe (a scheduler yield point) between fields
 }
 
 type declGen struct {
@@ -216,12 +217,18 @@ var jsScripts = []struct {
 	{"let u = a.length; u * 2", 1},
 	{"var w; if (a.length > 3) { w = a } typeof w + '/' + a.length", 1},
 	{"function f(x) { return '<' + x + '>' } f(a)", 1},
+	// declarations and assignments inside nested statements: hoisted, or implicit, globals
+	{"for (var i = 0; i < a.length; i++) { if (a.charAt(i) == 'x' || a.charAt(i) == 'a') { var hit = i } } typeof hit + ':' + a.length", 1},
+	{"if (a.length > 3) { g9 = a.length } typeof g9 + ':' + a.length", 1},
 }
 
 // leaf generates a declaration that yields a scalar, evaluated at a node whose field xpaths are fs.
 func (g *declGen) leaf(fs []string, intField string) D {
 	pick := func() string { return fs[g.t.Intn("decl.field", len(fs))] }
-	w := []int{8, 3, 2, 2, 3, 2, 2, 1, 3, 2, 2, 0, 2, 0, 1}
+	w := []int{8, 3, 2, 2, 3, 2, 2, 1, 3, 2, 2, 0, 2, 0, 1, 0}
+	if !g.o.NoJS {
+		w[15] = 1
+	}
 	if !g.o.NoJS && !g.o.OwnDataOnly && g.t.Chance("decl.cyclic", 1, 12) {
 		w[13] = 3
 	}
@@ -291,19 +298,62 @@ func (g *declGen) leaf(fs []string, intField string) D {
 		// a string argument, the name of a javascript argument, the value of an xpath_dynamic
 		g.usesJS = true
 		cyc := cf("javascript", D{"const": "(function(){ var o = {k: a}; o.self = o; return o })()"}, D{"const": "a"}, D{"xpath": pick()})
-		switch g.t.Intn("decl.cyclic.where", 3) {
+		switch g.t.Intn("decl.cyclic.where", 7) {
 		case 0:
 			return cf("upper", cyc)
 		case 1:
 			return cf("javascript", D{"const": "1 + 1"}, cyc, D{"const": "v"})
+		case 3:
+			// ... or is handed on to another script as an argument value
+			return cf("javascript", D{"const": "typeof v"}, D{"const": "v"}, cyc)
+		case 4:
+			// a script result that is a function, handed on to another script (a shared helper): it
+			// belongs to the runtime that made it
+			helper := cf("javascript", D{"const": "(function(x) { return x + '!' })"})
+			return cf("javascript", D{"const": "h(a)"}, D{"const": "h"}, helper, D{"const": "a"}, D{"xpath": pick()})
+		case 5:
+			// a script that leaves something on the global object that cannot be removed, read or reset
+			return cf("javascript", D{"const": "Object.defineProperty(this, 'trapg', {get: function() { throw new Error('trap') }, enumerable: true, configurable: false}); a.length"}, D{"const": "a"}, D{"xpath": pick()})
+		case 6:
+			// what is thrown cannot be turned into a text, not even by those who catch it
+			return cf("javascript", D{"const": "throw { toString: function() { throw this } }"}, D{"const": "a"}, D{"xpath": pick()})
 		default:
 			return D{"xpath_dynamic": cyc}
 		}
 	case 14:
 		// an xpath that computes a boolean rather than selecting nodes: a condition on the cursor node
 		f := pick()
-		x := g.t.Pick("decl.boolxpath", f+" != ''", f+" = ''", f+" != '' or "+f+" = ''", "1 < 2", "string-length("+f+") > 0 and "+f+" != 'Q'")
+		x := g.t.Pick("decl.boolxpath", f+" != ''", f+" = ''", f+" != '' or "+f+" = ''", "1 < 2", "string-length("+f+") > 0 and "+f+" != 'Q'",
+			"numeric-self", "numeric-self", "bool-as-nodeset")
+		switch x {
+		case "numeric-self":
+			// a condition on the cursor node's own (numeric) value: it cannot even be evaluated on a node without one
+			if intField == "" {
+				x = ". != '' and . != 'Q'"
+				break
+			}
+			return D{"xpath": intField, "object": D{"in_range": D{"xpath": ". >= 0 and . <= 999999999999999999999"}, "odd": D{"xpath": "substring(., 1, 1) = '5' or . = 'n/a'"}}}
+		case "bool-as-nodeset":
+			// a boolean used where a node-set belongs: the xpath engine does not come to an end with these by itself
+			if !g.o.Pathological || !g.t.Chance("decl.boolxpath.pathological", 1, 4) {
+				x = f + " != 'Q'"
+				break
+			}
+			x = g.t.Pick("decl.boolxpath.pathological.which", "("+f+" != 'Q')[1]", "("+f+" != 'Q') | ("+f+" = 'Q')")
+		}
 		return cf("coalesce", D{"xpath": x, "custom_func": D{"name": "concat", "args": []interface{}{D{"const": "yes"}}}}, D{"const": "no"})
+	case 15:
+		// two scripts evaluated one after the other: the first declares a global (a variable, a
+		// function or variable named like a built-in), the second finds out whether it is there
+		g.usesJS = true
+		pairs := [][2]string{
+			{"var q7 = a.length; q7", "(function() { try { q7; return 'declared' } catch (e) { return 'undeclared' } })()"},
+			{"function escape(x) { return 'mine' } escape(a)", "escape('é')"},
+			{"var Number = a.length; Number", "Number('7') + 1"},
+		}
+		pr := pairs[g.t.Intn("decl.jspair", len(pairs))]
+		return cf("concat", cf("javascript", D{"const": pr[0]}, D{"const": "a"}, D{"xpath": pick()}), D{"const": "|"},
+			cf("javascript", D{"const": pr[1]}), D{"const": "|"}, cf("javascript", D{"const": pr[1]}))
 	case 11:
 		return cf("verif_probe", D{"xpath": pick()})
 	case 12:
